@@ -5,6 +5,7 @@ import (
 	"strings"
 
 	"github.com/antchfx/xmlquery"
+	"github.com/antchfx/xpath"
 	"github.com/jf-tech/omniparser/idr"
 
 	"verifharness/vh"
@@ -52,7 +53,7 @@ type gnode struct {
 
 var elemNames = []string{"x", "y", "z", "item", "n", "x", "y"}
 var attrNames = []string{"k", "id", "v", "k2", "x"}
-var words = []string{"a", "b", "ab", "1", "2", "10", "x y", " ", "\n  ", "é", "日本", "a<b", "q&r", "\"q\"", "it's", "0", "abc", "ab"}
+var words = []string{"a", "b", "ab", "1", "2", "10", "x y", "x  y", "x\ty", "X y", " ", "\n  ", "é", "日本", "a<b", "q&r", "\"q\"", "it's", "0", "abc", "ab", "Ab", " ab"}
 
 type docGen struct {
 	r        *vh.Rng
@@ -158,6 +159,12 @@ func (g *docGen) element(depth int, scope map[string]bool) *gnode {
 					t.cdata = true
 					t.text = strings.ReplaceAll(t.text, "]]>", "]]")
 					g.feat["cdata"] = true
+					if r.Chance(0.4) {
+						// <![CDATA[]]>: the only zero-length CharData encoding/xml produces; both
+						// trees keep an empty text node there
+						t.text = ""
+						g.feat["empty-cdata"] = true
+					}
 				} else if lastPlain {
 					continue
 				}
@@ -172,6 +179,12 @@ func (g *docGen) element(depth int, scope map[string]bool) *gnode {
 				n.kids = append(n.kids, g.element(depth+1, scope2))
 			}
 		}
+	}
+	if len(n.kids) == 0 && r.Chance(0.07) {
+		n.kids = append(n.kids, &gnode{cdata: true}) // an element whose only child is an empty text node
+		g.feat["empty-cdata"] = true
+		g.feat["cdata"] = true
+		g.feat["text"] = true
 	}
 	if depth >= 5 {
 		g.feat["deep"] = true
@@ -190,6 +203,7 @@ func escAttr(s string) string {
 	s = escText(s)
 	s = strings.ReplaceAll(s, "\"", "&quot;")
 	s = strings.ReplaceAll(s, "\n", "&#10;")
+	s = strings.ReplaceAll(s, "\t", "&#9;")
 	return s
 }
 
@@ -331,10 +345,41 @@ func parseBoth(text string) (*docCtx, error) {
 	}
 	d := &docCtx{text: text, xdoc: xdoc, idoc: vh.Root(n), xlabel: map[*xmlquery.Node]string{}, ilabel: map[*idr.Node]string{}}
 	if err := d.pair(xdoc, d.idoc, nil); err != nil {
-		return nil, err
+		return nil, &shapeErr{msg: err.Error(), probe: probeUnpaired(xdoc, d.idoc)}
 	}
 	d.allTxt = xdoc.InnerText()
 	return d, nil
+}
+
+// shapeErr: the two trees of one document do not have the same shape.  probe is an xpath-level
+// witness of it: a whole-document expression with different values on the two bindings.
+type shapeErr struct {
+	msg   string
+	probe *probeResult
+}
+
+func (e *shapeErr) Error() string { return e.msg }
+
+type probeResult struct {
+	Expr   string `json:"expr"`
+	IdrVal string `json:"idr_value"`
+	RefVal string `json:"reference_value"`
+}
+
+var probes = []string{"count(//node())", "count(//text())", "count(//*)", "count(//@*)", "count(//*[not(node())])",
+	"count(//*[text()])", "count(//text()[.=''])", "count(//*[count(node())=1])", "count(//node()[last()][self::text()])",
+	"string(//text()[1])", "string(//*[last()])", "string(/)", "string-length(/)", "count(//text()[normalize-space(.)=''])"}
+
+func probeUnpaired(xdoc *xmlquery.Node, idoc *idr.Node) *probeResult {
+	for _, e := range probes {
+		var a, b string
+		ea := guarded(func() { nav, _ := newFixNav(xdoc); a = scalarString(xpath.MustCompile(e).Evaluate(nav)) })
+		eb := guarded(func() { b = scalarString(xpath.MustCompile(e).Evaluate(idr.VerifNavigator(idoc))) })
+		if a+ea != b+eb {
+			return &probeResult{Expr: e, IdrVal: b + eb, RefVal: a + ea}
+		}
+	}
+	return nil
 }
 
 func idrAttrLabel(p []int, a *idr.Node) string {
